@@ -1,5 +1,7 @@
 mod c07;
+mod c08;
 mod c17;
+mod c18;
 mod gen;
 mod model;
 mod stage;
@@ -20,7 +22,9 @@ fn all_checks() -> Vec<&'static dyn Check> {
         &termchecks::TermCheck(termchecks::Flavor::C03),
         &termchecks::TermCheck(termchecks::Flavor::C04),
         &c07::C07,
+        &c08::C08,
         &c17::C17,
+        &c18::C18,
         &termchecks::TermCheck(termchecks::Flavor::C19),
     ]
 }
